@@ -105,3 +105,21 @@ def c03(archs, types=ATYPES):
                     k = mk('C03', 'mcast', 'm', 'm', 'xsimd::batch_bool_cast<%s>(a)' % TYPES[ty2][0], ty, arch, variant=ty2, rty=ty2)
                     ks.append(k)
     return ks
+
+
+# ---------------------------------------------------------------- C09 reductions
+def c09(archs, types=ATYPES):
+    ks = []
+    for arch in archs:
+        for ty in types:
+            n = lanes(ty, arch); b = B(ty, arch)
+            ks.append(mk('C09', 'reduce_add', 'v', 'T', 'xsimd::reduce_add(a)', ty, arch))
+            ks.append(mk('C09', 'reduce_max', 'v', 'T', 'xsimd::reduce_max(a)', ty, arch))
+            ks.append(mk('C09', 'reduce_min', 'v', 'T', 'xsimd::reduce_min(a)', ty, arch))
+            pre = '%s::register_type xv_f(%s::register_type, %s::register_type);' % (b, b, b)
+            ks.append(mk('C09', 'reduce', 'v', 'T', 'xsimd::reduce([](%s const& x, %s const& y) { return %s(xv_f(x.data, y.data)); }, a)' % (b, b, b), ty, arch, pre=pre,
+                         meta={'replay_extra': '%s::register_type xv_f(%s::register_type x, %s::register_type y) { return (%s(x) + %s(y)).data; }' % (b, b, b, b, b)}))
+            if TYPES[ty][3] == 'fp':
+                pre = '%s rows[%d]; for (int i = 0; i < %d; ++i) rows[i] = %s::load_unaligned(a + i * %d);' % (b, n, n, b, n)
+                ks.append(mk('C09', 'haddp', 'q', 'v', 'xsimd::haddp(rows)', ty, arch, pre=pre))
+    return ks
